@@ -76,6 +76,9 @@ selftest)
 	rc=0
 	for kind in plain race; do
 		build $kind
+		if [ $kind = race ]; then
+			GORACE="halt_on_error=0 suppress_equal_stacks=0 suppress_equal_addresses=0 exitcode=0 log_path=$SCRATCH/racecheck" "$SCRATCH/bin/verif" racecheck x || { echo "FATAL race oracle self-test failed"; rc=2; }
+		fi
 		if [ $kind = race ]; then ids="C12 C20"; export GORACE="halt_on_error=0 suppress_equal_stacks=0 suppress_equal_addresses=0 exitcode=0 log_path=$SCRATCH/race"; else ids="C03 C06 C11 C14 C16 C19"; fi
 		for id in $ids; do
 			for seed in 1 7; do
